@@ -77,3 +77,103 @@ Theorem C16_matcher_blind : forall c n tl m t k, all_crlf tl -> MI m -> tk_line 
   mout_rel t (make_line c n) (matcher Dialects.dialects k m t) (matcher Dialects.dialects k m (with_line (make_line c n) t)).
 Proof. intros c n tl m t k Ht Hm Hl. exact (matcher_tail c n tl Ht m Hm t Hl k). Qed.
 Print Assumptions C16_matcher_blind.
+
+Require Import AgreeUpTo BlankTail BlankParse.
+
+(* Trailing blanks.  No match_* method other than match_Other, match_Comment (on a comment line) and match_StepLine
+   (when the keyword test itself changes its answer) sees the run of whitespace that ends its line: for a non-blank
+   text c and any run of whitespace tl (blanks, tabs, the terminator), matching the line c ++ tl gives what matching c
+   gives -- same answer, same matcher state, same token up to the physical line it carries. *)
+Theorem C16_matcher_blind_whitespace : forall c n tl m t k, all_space tl -> is_blank_text c = false -> MIw m ->
+  tk_line t = Some (make_line (c ++ tl) n) -> blind_ok c n tl m k ->
+  mout_wrel t (make_line c n) (matcher Dialects.dialects k m t) (matcher Dialects.dialects k m (with_line (make_line c n) t)).
+Proof. intros c n tl m t k Ht Hc Hm Hl Hk. exact (matcher_wtail c n tl Ht Hc m Hm t Hl k Hk). Qed.
+Print Assumptions C16_matcher_blind_whitespace.
+
+(* The paired run (BlankParse.paired_run: every changed token carries its twin from the other source, the matcher state
+   carries a flag) IS the real run on the first source: same outcome, same matcher state, same builder state, same
+   number of matcher calls.  Its flag goes up exactly when the matcher is asked, about a changed token, whether it is
+   free text, whether it is a comment while it begins with '#', or a step question that the two lines answer differently. *)
+Theorem C16_paired_run_is_the_run : forall stop xs m b,
+  out_rel MRa eq (paired_run stop xs m b) (parse_tokens stop (map fst xs) m b).
+Proof.
+  intros stop xs m b. apply (res_R_out TRa MRa eq). unfold paired_run, parse_tokens, parse_tokens_with.
+  exact (parse_R _ _ TRa _ _ MRa _ _ eq _ _ ER PA (pipeline_params Table.table) paramsA_related stop stop (bool_R_refl stop)
+                 xs (map fst xs) (list_R_fst xs) (reset_matcher Dialects.dialects m, false) (reset_matcher Dialects.dialects m) eq_refl
+                 (reset_builder b) (reset_builder b) eq_refl).
+Qed.
+Print Assumptions C16_paired_run_is_the_run.
+Theorem C16_flag_rule : forall k m p t,
+  (forall t', flag (mres_ms (matchA k (m, p) (t, Some t'))) = p || unblind k m t t')
+  /\ flag (mres_ms (matchA k (m, p) (t, None))) = p.
+Proof. intros k m p t. split; [intros t'|]; unfold matchA; cbn [snd fst]; rewrite mres_ms_map; reflexivity. Qed.
+Print Assumptions C16_flag_rule.
+
+(* Two sources whose physical lines are pairwise equal or differ only in the whitespace that ends them (blanks or tabs
+   added to or removed from the end of non-blank lines; LF / CRLF / nothing as terminator) give the same document -- or
+   the same errors --, the same matcher state and the same number of matcher calls, in either error mode, whenever the run
+   on the first source ends with the flag down, i.e. never asks one of the three questions above about a changed line
+   (a changed line is not read as free text, is not a comment, is not a step keyword cut at its final blank).
+   Chain: paired run A = real run on the first source (projection, parametricity); run B = A while the flag is down
+   (AgreeUpTo.parse_agree); run B ~ real run on the second source (parametricity + the matcher theorem + the builder
+   theorem of C16_builder_blind). *)
+Theorem C16_trailing_whitespace : forall stop m b src src', wf_ms m ->
+  Forall2 lrel (py_lines src) (py_lines src') ->
+  blank_safe stop (pair_lines (py_lines src) (py_lines src') 1) m b ->
+  psim (parse_source stop m b src) (parse_source stop m b src').
+Proof. exact trailing_whitespace_neutral. Qed.
+Print Assumptions C16_trailing_whitespace.
+
+(* non-vacuity: trailing blanks / tabs after tag, keyword, step, row and delimiter lines of an accepted document and of a
+   rejected one: the hypotheses hold (the doc string's content line is left alone), and so does the conclusion *)
+From Coq Require Import String.
+Definition c16_plain : str := s2l
+"@t
+Feature: f
+  Scenario: s
+    Given g
+      | a |
+    And d
+      ```
+      text  
+      ```
+".
+Definition c16_padded : str := s2l
+"@t  
+Feature: f 	
+  Scenario: s  
+    Given g   
+      | a |  
+    And d 
+      ```  
+      text  
+      ```   
+".
+Definition c16_plain_bad : str := (c16_plain ++ s2l "  Background: late
+")%list.
+Definition c16_padded_bad : str := (c16_padded ++ s2l "  Background: late   
+")%list.
+Example C16_trailing_whitespace_sample :
+  match new_matcher Dialects.dialects (s2l "en") with
+  | Some m =>
+    forallb2 lrelb (py_lines c16_plain) (py_lines c16_padded) = true
+    /\ flag_down (paired_run false (pair_lines (py_lines c16_plain) (py_lines c16_padded) 1) m (new_builder 0)) = true
+    /\ negb (str_eqb c16_plain c16_padded) = true
+    /\ match parse_source false m (new_builder 0) c16_plain with POk _ _ _ _ => True | _ => False end
+    /\ forallb2 lrelb (py_lines c16_plain_bad) (py_lines c16_padded_bad) = true
+    /\ flag_down (paired_run false (pair_lines (py_lines c16_plain_bad) (py_lines c16_padded_bad) 1) m (new_builder 0)) = true
+    /\ match parse_source false m (new_builder 0) c16_plain_bad with PErrs _ _ _ _ => True | _ => False end
+    (* and the flag does go up when the changed line is doc-string content *)
+    /\ flag_down (paired_run false (pair_lines (py_lines c16_padded) (py_lines (s2l "@t
+Feature: f
+  Scenario: s
+    Given g
+      | a |
+    And d
+      ```
+      text
+      ```
+")) 1) m (new_builder 0)) = false
+  | None => False
+  end.
+Proof. vm_compute. repeat split. Qed.
